@@ -1,0 +1,37 @@
+/*!
+ * verif.h - verification hooks for lcdb (off unless -DLDB_VERIF)
+ *
+ * With LDB_VERIF undefined every macro below expands to nothing.
+ */
+
+#ifndef LDB_VERIF_H
+#define LDB_VERIF_H
+
+#ifdef LDB_VERIF
+
+#include <stdint.h>
+
+/* Observation / yield points. The callback is NULL unless a harness sets it. */
+#define LDB_VP_SKIPLIST_LINK 1 /* between level links of one skiplist insert */
+#define LDB_VP_WRITE_LOGGED  2 /* a=first seq, b=last seq: WAL appended, not yet in memtable */
+#define LDB_VP_WRITE_COMMIT  3 /* a=status, b=last seq: last_sequence published (mutex held) */
+#define LDB_VP_GET_SEQ       4 /* a=sequence captured by ldb_get */
+#define LDB_VP_ITER_SEQ      5 /* a=sequence captured by ldb_iterator */
+#define LDB_VP_SNAP_SEQ      6 /* a=sequence captured by ldb_snapshot */
+#define LDB_VP_BG_BEGIN      7 /* background call entered (mutex held) */
+#define LDB_VP_BG_END        8 /* background call about to return (mutex held) */
+
+extern void (*ldb_verif_point_cb)(int id, const void *p, uint64_t a, uint64_t b);
+
+#define LDB_VERIF_POINT(id, p, a, b) do {                      \
+  if (ldb_verif_point_cb != NULL)                              \
+    ldb_verif_point_cb((id), (p), (uint64_t)(a), (uint64_t)(b)); \
+} while (0)
+
+#else /* !LDB_VERIF */
+
+#define LDB_VERIF_POINT(id, p, a, b) ((void)0)
+
+#endif /* !LDB_VERIF */
+
+#endif /* LDB_VERIF_H */
